@@ -12,3 +12,11 @@ claim("C07", "generated-input search: round-trip + exact-value oracle (CPython d
       "Exploration: every exponent class x coefficient length x sign on a grid plus random decimal128 triples, FEEL literals, xsd "
       "input and arithmetic results are printed and the text is checked against plain/JSON grammars, exact value and read-back.",
       "Trusts CPython Decimal(text) exactness and the C library's own scientific string as the name of the stored value.")
+
+claim("C01", "generated-input search: typed grammar-directed expression generator vs a reference FEEL evaluator (differential) + scope-shape metamorphic relation",
+      "Exploration: tens of thousands of generated core-fragment expressions (every construct nested in the others to depth 4, depth 5 in the "
+      "thorough tier) over generated bindings are evaluated by the SUT and by an independent reference evaluator written from DMN 1.3; "
+      "results compared structurally, numbers numerically; the same text in a differently shaped scope must give the same value.",
+      "Trusts the reference evaluator pbt/oracles/feel.py; cases the DMN text does not decide are generated but only checked for scope "
+      "invariance (counted as 'unspecified'). Open findings are tolerated only when the reference with exactly that deviation switched "
+      "on predicts the SUT's value.")
